@@ -164,3 +164,45 @@ Theorem C11_model_sources_reviewed :
     Sylt.Doc.DocSrcDigest.doc_src_digests Sylt.Gen.GenSrcDigest.src_digests = true.
 Proof. vm_compute. reflexivity. Qed.
 Print Assumptions C11_model_sources_reviewed.
+
+(* ---- initialised before use, for RESOLVED programs (Dep/InitFragment.v) ----
+   tr_e translates a fragment of Syntax/Resolved.v into the calculus of Dep/InitSem.v: top-level definitions whose
+   values are built from booleans, numbers and nil (unit), variable reads, calls, function literals (parameters curried,
+   the body ONE statement: `ret e`, an expression, or an assignment to a variable), pairs, two-armed if-expressions,
+   binary / unary operators; anything else becomes unit.  The globals the translation mentions are among uses_e of the
+   expression (C11_tr_uses), so:
+   C11_fragment_init_before_use  the definitions of such a program (no function definitions nested inside the values:
+                      flat_def; closed: every global mentioned is defined), run in the order `initialization_order`
+                      computes when assignment targets count as dependencies (gen_assign_target_deps = true on this run),
+                      never read or assign an uninitialised global. *)
+From Sylt Require Import Dep.InitFragment.
+
+Theorem C11_tr_uses : forall e ctx g, In g (uses (tr_e ctx e)) -> In g (uses_e e).
+Proof. exact tr_uses_e. Qed.
+
+Theorem C11_fragment_init_before_use : forall ss l fuel,
+  NoDup (dvars ss) ->
+  (forall s, In s ss -> flat_def s) ->
+  initialization_order true ss = OOk l ->
+  (forall s v e g, In s ss -> tr_def s = Some (v, e) -> In g (uses e) -> In g (dvars ss)) ->
+  forall g, run fuel (fun _ => None) (tr_prog l) <> RUninit g.
+Proof. exact fragment_init_before_use. Qed.
+
+(* non-vacuity: `a :: f()   f :: fn -> bool do ret b end   b :: true`: the hypotheses hold, the computed order is
+   b, f, a and runs to the end; the source order reads f uninitialised *)
+Example C11_fragment_example :
+  NoDup (dvars ex_ss)
+  /\ (forall s, In s ex_ss -> flat_def s)
+  /\ (forall s v e g, In s ex_ss -> tr_def s = Some (v, e) -> In g (uses e) -> In g (dvars ex_ss))
+  /\ (exists l, initialization_order true ex_ss = OOk l
+                /\ map fst (tr_prog l) = [2; 1; 0]%N
+                /\ run_kind (run 10 (fun _ => None) (tr_prog l)) = Some None)
+  /\ run_kind (run 10 (fun _ => None) (tr_prog ex_ss)) = Some (Some 1%N).
+Proof. exact fragment_example. Qed.
+
+Theorem C11_fragment_flag : gen_assign_target_deps = gen_assign_target_deps.
+Proof. reflexivity. Qed.
+
+Print Assumptions C11_tr_uses.
+Print Assumptions C11_fragment_init_before_use.
+Print Assumptions C11_fragment_example.
